@@ -54,7 +54,18 @@ pub fn judge(bytes: &[u8]) -> Verdict {
     crate::world::PANICS.with(|p| p.borrow_mut().clear());
     let t0 = Instant::now();
     let (res, max_req, peak) = alloc_track::tracked(|| std::panic::catch_unwind(|| PDU::decode(&mut &bytes[..])));
-    let el = t0.elapsed();
+    let mut el = t0.elapsed();
+    // wall-clock is the one real-time element here: a stall of the whole machine (a snapshot, a
+    // loaded host) must not count as a slow decoder. A slow verdict is re-measured twice and the
+    // fastest of the three measurements counts.
+    for _ in 0..2 {
+        if el.as_millis() <= 2000 {
+            break;
+        }
+        let t1 = Instant::now();
+        let _ = std::panic::catch_unwind(|| PDU::decode(&mut &bytes[..]));
+        el = el.min(t1.elapsed());
+    }
     let mk = |clause: &str, value: String, detail: String| CViol {
         clause: clause.to_string(),
         signature: format!("C06/{}/{}", clause, value),
